@@ -235,7 +235,9 @@ waitDone:
 		res.Status, res.Body, res.CType = last.Status, last.Body, last.CType
 		res.NoResponse = false
 		for i, r := range responses[:len(responses)-1] {
-			if r.Status != last.Status || !bytes.Equal(r.Body, last.Body) {
+			// the same request twice: same verdict; an accepted one with the same bytes (the details
+			// of a rejection may be worded differently each time, C02)
+			if r.Status != last.Status || (last.Status == 200 && !bytes.Equal(r.Body, last.Body)) {
 				res.TransportNote = fmt.Sprintf("response %d of %d on the connection differs from the last one", i+1, len(responses))
 				res.Extra = responses
 			}
